@@ -358,10 +358,10 @@ pub fn build_abiding_ext(g: &Genome, ext: Ext) -> Built {
         }
         let pickers: Vec<u16> = g.mws.iter().chain(g.handlers.iter()).nth(n_c).map(|cg| cg.inputs.iter().map(|(r, _)| *r).collect()).unwrap_or_default();
         for raw in pickers.iter().take(2) {
-            if raw % 4 != 0 {
+            if raw % 3 != 0 {
                 continue;
             }
-            let kind = ((raw / 4) % 4) as u8;
+            let kind = ((raw / 3) % 4) as u8;
             let inner = pick(raw / 12, n);
             let borrowable = matches!(discs[inner], Disc::BorrowOnly | Disc::Copy | Disc::CloneIfNecessary) || types[inner].life == Life::Singleton;
             let life_ok = (kind != 0 || types[inner].life == Life::Singleton) && types[inner].view_of.is_none();
@@ -492,6 +492,57 @@ pub fn build_abiding_ext(g: &Genome, ext: Ext) -> Built {
     for (h, p) in placed.iter().enumerate() {
         if !p {
             bp.push(Reg::Comp { idx: h_idx[h] });
+        }
+    }
+    // ---- generic constructors across scopes: for a wrapper kind in use, (1) the generic constructor in the
+    // root blueprint and a concrete constructor for one instantiation in a nested blueprint, or (2) the
+    // other way round (possible when the kind is used with one instantiation only): the nearest
+    // enclosing registration that applies wins
+    {
+        fn handlers_in(regs: &[Reg], comps: &[CompSpec], out: &mut Vec<usize>) {
+            for r in regs {
+                match r {
+                    Reg::Comp { idx } if comps[*idx].kind == CompKind::Handler => out.push(*idx),
+                    Reg::Nest { bp, .. } => handlers_in(bp, comps, out),
+                    _ => {}
+                }
+            }
+        }
+        // (only kinds that no middleware asks for: a middleware registered in an ancestor blueprint is given what
+        // *its* blueprint designates, not what the route's blueprint designates: recorded finding of C04, kept out
+        // of the generated class)
+        let kinds: std::collections::BTreeSet<u8> = comps
+            .iter()
+            .flat_map(|c| c.gens.iter().map(|(k, _)| *k % 4))
+            .filter(|k| *k != 0 && !comps.iter().any(|c| c.kind != CompKind::Handler && c.gens.iter().any(|(kk, _)| kk % 4 == *k)))
+            .collect();
+        for kind in kinds {
+            let sel = (g.n_errs as usize / 3 + kind as usize) % 3;
+            if sel == 0 {
+                continue;
+            }
+            let all_inners: std::collections::BTreeSet<usize> = comps.iter().flat_map(|c| c.gens.iter().filter(|(k, _)| *k % 4 == kind).map(|(_, i)| *i)).collect();
+            let mut target: Option<(usize, usize)> = None;
+            for (pos, r) in bp.iter().enumerate() {
+                if let Reg::Nest { bp: inner_bp, .. } = r {
+                    let mut hs = vec![];
+                    handlers_in(inner_bp, &comps, &mut hs);
+                    if let Some(i) = hs.iter().flat_map(|h| comps[*h].gens.iter()).find(|(k, _)| *k % 4 == kind).map(|(_, i)| *i) {
+                        target = Some((pos, i));
+                        break;
+                    }
+                }
+            }
+            let Some((pos, inner)) = target else { continue };
+            let (root_reg, nest_reg) = if sel == 2 && all_inners.len() == 1 {
+                (Reg::Gen { kind, concrete_for: Some(inner) }, Reg::Gen { kind, concrete_for: None })
+            } else {
+                (Reg::Gen { kind, concrete_for: None }, Reg::Gen { kind, concrete_for: Some(inner) })
+            };
+            if let Reg::Nest { bp: inner_bp, .. } = &mut bp[pos] {
+                inner_bp.insert(0, nest_reg);
+            }
+            bp.insert(0, root_reg);
         }
     }
     Built { spec: AppSpec { peel: false, types, n_errs, comps, bp, note: "abiding".into() }, discs }
